@@ -1,0 +1,54 @@
+// pest. The Elegant Parser
+//
+// Licensed under the Apache License, Version 2.0
+// <LICENSE-APACHE or http://www.apache.org/licenses/LICENSE-2.0> or the MIT
+// license <LICENSE-MIT or http://opensource.org/licenses/MIT>, at your
+// option. All files in the project carrying such notice may not be copied,
+// modified, or distributed except according to those terms.
+
+//! Verification hook (only compiled with `--cfg pest_parser_pest_verif`).
+//!
+//! A simulator can register one function that is told about every access to the two
+//! process-wide parser switches and about every counted combinator call. The function may
+//! record the site and may hand control to another simulated thread; it must not call back
+//! into a parser. With no function registered every site is a no-op.
+
+#![allow(missing_docs)]
+
+use core::sync::atomic::{AtomicUsize, Ordering};
+
+/// A point in pest at which the simulator is told what is about to happen / has just happened.
+#[derive(Clone, Copy, Debug, PartialEq, Eq)]
+pub enum Site {
+    /// Nothing happens here; another simulated thread may run before the next site.
+    Yield,
+    /// `set_call_limit` is about to store this value (0 = no limit); the store follows
+    /// immediately after the hook returns.
+    CallLimitStore(usize),
+    /// A new parser state has just read this call limit (0 = no limit).
+    CallLimitLoad(usize),
+    /// `set_error_detail` is about to store this value.
+    ErrorDetailStore(bool),
+    /// A new parser state reads the error-detail switch and sees this value (the hook must not
+    /// hand control to another thread at this site).
+    ErrorDetailLoad(bool),
+    /// A counted combinator call is being checked against the limit.
+    Call { refused: bool },
+}
+
+static HOOK: AtomicUsize = AtomicUsize::new(0);
+
+/// Registers (or, with `None`, removes) the simulator's hook function.
+pub fn set_hook(hook: Option<fn(Site)>) {
+    HOOK.store(hook.map(|f| f as usize).unwrap_or(0), Ordering::SeqCst);
+}
+
+#[inline]
+pub(crate) fn emit(site: Site) {
+    let raw = HOOK.load(Ordering::Relaxed);
+    if raw != 0 {
+        // SAFETY: the only non-zero values ever stored are `fn(Site)` pointers (see `set_hook`).
+        let f: fn(Site) = unsafe { core::mem::transmute::<usize, fn(Site)>(raw) };
+        f(site);
+    }
+}
